@@ -102,8 +102,9 @@ Definition facet_dist2 (g h : geom) : option (rat * (hpt * hpt)) := facets_dist2
 Definition in_some_poly (h : geom) (p : pt) : bool := existsb (fun a => negb (is_exterior (loc_poly p a))) (polys_of h).
 Definition vertex_inside (g h : geom) : option pt := find (in_some_poly h) (coords_of g).
 
-Definition dist2 (g h : geom) : option (rat * (hpt * hpt)) :=
-  match facet_dist2 g h with
+(* from the facet distance f of g and h *)
+Definition dist2_of (f : option (rat * (hpt * hpt))) (g h : geom) : option (rat * (hpt * hpt)) :=
+  match f with
   | None => None
   | Some r =>
       match vertex_inside g h with
@@ -114,6 +115,10 @@ Definition dist2 (g h : geom) : option (rat * (hpt * hpt)) :=
                 end
       end
   end.
+Definition dist2 (g h : geom) : option (rat * (hpt * hpt)) := dist2_of (facet_dist2 g h) g h.
+(* both at once (the driver prints both; the facet minimum is computed once) *)
+Definition facet_and_dist2 (g h : geom) : option (rat * (hpt * hpt)) * option (rat * (hpt * hpt)) :=
+  let f := facet_dist2 g h in (f, dist2_of f g h).
 
 (* ------------------------------------------------------------------ discrete Hausdorff distance *)
 (* distance from a point to the linework of a geometry (polygons count by their rings: DistanceToPoint::computeDistance) *)
@@ -193,6 +198,21 @@ Definition minclear2 (g : geom) : option rat :=
   let vsg := flat_map (fun p => flat_map (fun s => if pt_eqb p (fst s) || pt_eqb p (snd s) then []
                                                      else [(fst (dist2_pt_seg p (fst s) (snd s)), tt)]) ss) vs in
   option_map fst (min_of (vv ++ vsg)).
+
+(* ------------------------------------------------------------------ facet sequencing *)
+(* M: FacetSequenceTreeBuilder::addFacetSequences — the index ranges [start, end) into which a coordinate sequence of `size`
+   points is cut (FACET_SEQUENCE_SIZE = 6):  i = 0; while (i <= size-1) { end = i+6+1; if (end >= size-1) end = size;
+   emit (i, end); i += 6 } *)
+Fixpoint sections_loop (fuel : nat) (i size : Z) : list (Z * Z) :=
+  match fuel with
+  | O => []
+  | S f => if i <=? size - 1 then
+             let e := i + 6 + 1 in
+             let e := if e >=? size - 1 then size else e in
+             (i, e) :: sections_loop f (i + 6) size
+           else []
+  end.
+Definition sections (size : Z) : list (Z * Z) := if size =? 0 then [] else sections_loop (Z.to_nat size) 0 size.
 
 (* ------------------------------------------------------------------ entry points of the driver *)
 Definition val {A} (o : option (rat * A)) : option rat := option_map fst o.
